@@ -98,6 +98,8 @@ class LicCtx:
                         mw[u] |= mw[c]
                         changed = True
         self.member_writes = mw
+        from .. import flow as _flow
+        _flow.MEMBER_WRITES.update(mw)
 
     # -------------------------------------------------------------- object initialisation conditions
     def members(self, cls):
@@ -355,7 +357,8 @@ def run_class(ctx, cls, res, only_fns=None):
         nfun += 1
         fl = lc.flow(f, ef.get(f.usr))
         member_U = {'this.' + m: u for m, u in U.items()}
-        lic = Lic(ctx, f, fl, member_U=member_U, gated=lc.gated, ax=ax, member_writes=lc.member_writes)
+        lic = Lic(ctx, f, fl, member_U=member_U, gated=lc.gated, ax=ax, member_writes=lc.member_writes,
+                  stale_zero=False)
         res.obligations += lic.nsinks
         res.discharged += lic.nsinks - len({(e, w) for e, w, _, _ in lic.reports})
         seen = set()
